@@ -1905,7 +1905,8 @@ pub fn run(ctx: Ctx, replay: Option<PathBuf>, which: Which) -> i32 {
         Which::C08 => ctx.tier.pick((100, 2), (1200, 3)),
         Which::C12 => ctx.tier.pick((200, 2), (3000, 3)),
         Which::C19 | Which::C17 | Which::C13 => ctx.tier.pick((160, 2), (2500, 3)),
-        Which::C14 | Which::C25 => ctx.tier.pick((80, 2), (1200, 3)),
+        Which::C14 => ctx.tier.pick((80, 2), (1200, 3)),
+        Which::C25 => ctx.tier.pick((130, 2), (1200, 3)),
         _ => ctx.tier.pick((120, 2), (1500, 3)),
     };
     let chunk = 240usize;
